@@ -29,6 +29,9 @@ pub assume_specification<T, I> [<[T]>::get_unchecked::<I>] (s: &[T], i: I) -> (r
     requires i.in_bounds(s),
     ensures i.index_postcondition(s, r);
 
+pub assume_specification [<str>::as_bytes_mut] (s: &mut str) -> (r: &mut [u8])
+    ensures r@ == old(s).spec_bytes(), final(s).spec_bytes() == final(r)@;
+
 /// every `str` is a byte slice, and slice lengths fit in usize (vstd states this for slices only)
 #[verifier::external_body]
 pub broadcast proof fn axiom_str_len_bound(s: &str)
